@@ -767,6 +767,17 @@ func healthScenario(s *verifsim.Sim) {
 				}
 				w.checkSticky(modelAlive)
 			}
+			// ---- final sweep: every group, every network type, with and without the family fallback
+			for gi, g := range w.groups {
+				for _, nt := range w.types {
+					for _, strict := range []bool{true, false} {
+						if s.Failed() {
+							return
+						}
+						w.checkSelect(g, gi, nt, strict, nil, modelAlive)
+					}
+				}
+			}
 			if s.Failed() || !doReload {
 				return
 			}
